@@ -809,6 +809,10 @@ func (t *sourceTracer) TransitionEnd(tx *am.Transition) {
 	if s.syncShallowClocks {
 		mTime = am.NewTime(mTime, mTime.ActiveStates(nil))
 		trackedTSum = mTime.Sum(nil)
+		if s.syncSchema {
+			// source-bound indexes, count the tracked states only
+			trackedTSum = mTime.Filter(t.trackedStateIdxs).Sum(nil)
+		}
 	}
 
 	// update
